@@ -1372,6 +1372,142 @@ class Expander:
                     self._remove_stmt(fdef, st)
                     self.stats['aliases'] = self.stats.get('aliases', 0) + 1
 
+    # ------------------------------------------------------------------ scalar replacement of local aggregates
+    def _namedtuples(self):
+        """class name -> field list, for module-level `X = namedtuple('X', ...)` / `class X(NamedTuple): a: T ...`."""
+        out = {}
+        for m in self.modules.values():
+            for st in self._toplevel(m.tree.body):
+                if isinstance(st, ast.Assign) and len(st.targets) == 1 and isinstance(st.targets[0], ast.Name) \
+                        and isinstance(st.value, ast.Call) and len(st.value.args) >= 2:
+                    fn = st.value.func
+                    nm = fn.attr if isinstance(fn, ast.Attribute) else fn.id if isinstance(fn, ast.Name) else ''
+                    if nm == 'namedtuple':
+                        spec = st.value.args[1]
+                        fields = None
+                        if isinstance(spec, ast.Constant) and isinstance(spec.value, str):
+                            fields = spec.value.replace(',', ' ').split()
+                        elif isinstance(spec, (ast.List, ast.Tuple)) and all(isinstance(e, ast.Constant) for e in spec.elts):
+                            fields = [e.value for e in spec.elts]
+                        if fields and not st.value.keywords:
+                            out[st.targets[0].id] = fields
+                elif isinstance(st, ast.ClassDef) and any(
+                        (isinstance(b, ast.Name) and b.id == 'NamedTuple') or (isinstance(b, ast.Attribute) and b.attr == 'NamedTuple')
+                        for b in st.bases):
+                    fields = [x.target.id for x in st.body if isinstance(x, ast.AnnAssign) and isinstance(x.target, ast.Name)
+                              and x.value is None]
+                    if fields and not any(isinstance(x, ast.FunctionDef) for x in st.body):
+                        out[st.name] = fields
+        return out
+
+    def replace_local_aggregates(self):
+        """`r = NT(a=x, b=y)` / `r = (x, y)` bound once, used only as r.a / r[0] / `p, q = r`: the fields are read directly."""
+        from .cfg import CFG
+        nts = self._namedtuples()
+        for m in self.modules.values():
+            for fdef in [n for n in ast.walk(m.tree) if isinstance(n, ast.FunctionDef)]:
+                bound = {}
+                for x in _walk_no_nested(fdef.body):
+                    if isinstance(x, ast.Name) and isinstance(x.ctx, (ast.Store, ast.Del)):
+                        bound[x.id] = bound.get(x.id, 0) + 1
+                params = set(_params(fdef))
+                nested_reads = {x.id for sc in ast.walk(fdef) if sc is not fdef and isinstance(sc, (ast.FunctionDef, ast.Lambda))
+                                for x in ast.walk(sc) if isinstance(x, ast.Name)}
+                for st in list(_walk_no_nested(fdef.body)):
+                    if not (isinstance(st, ast.Assign) and len(st.targets) == 1 and isinstance(st.targets[0], ast.Name)):
+                        continue
+                    r = st.targets[0].id
+                    if bound.get(r) != 1 or r in params or r in nested_reads:
+                        continue
+                    v = st.value
+                    fields = None
+                    if isinstance(v, ast.Tuple) and len(v.elts) >= 2:
+                        elems = list(v.elts)
+                        fields = [None] * len(elems)
+                    elif isinstance(v, ast.Call) and isinstance(v.func, ast.Name) and v.func.id in nts:
+                        names = nts[v.func.id]
+                        byname = dict(zip(names, v.args))
+                        for k in v.keywords:
+                            if k.arg is None or k.arg in byname or k.arg not in names:
+                                byname = None
+                                break
+                            byname[k.arg] = k.value
+                        if not byname or set(byname) != set(names):
+                            continue
+                        fields = names
+                        elems = [byname[n] for n in names]
+                    else:
+                        continue
+                    if not all(isinstance(e, (ast.Name, ast.Constant)) or (isinstance(e, ast.Attribute) and self._pure_chain(e)) for e in elems):
+                        continue
+                    if any(isinstance(e, ast.Name) and e.id == r for e in elems):
+                        continue
+                    # every use of r
+                    uses = [x for x in _walk_no_nested(fdef.body) if isinstance(x, ast.Name) and x.id == r and isinstance(x.ctx, ast.Load)]
+                    if not uses:
+                        continue
+                    parents = {}
+                    for p_ in _walk_no_nested(fdef.body):
+                        for c_ in ast.iter_child_nodes(p_):
+                            parents[id(c_)] = p_
+                    plan = []
+                    ok = True
+                    for u in uses:
+                        par = parents.get(id(u))
+                        if isinstance(par, ast.Attribute) and par.value is u and isinstance(par.ctx, ast.Load) and fields[0] is not None \
+                                and par.attr in fields:
+                            plan.append((par, elems[fields.index(par.attr)]))
+                        elif isinstance(par, ast.Subscript) and par.value is u and isinstance(par.ctx, ast.Load) \
+                                and isinstance(par.slice, ast.Constant) and isinstance(par.slice.value, int) \
+                                and 0 <= par.slice.value < len(elems):
+                            plan.append((par, elems[par.slice.value]))
+                        elif isinstance(par, ast.Assign) and par.value is u and len(par.targets) == 1 \
+                                and isinstance(par.targets[0], ast.Tuple) and len(par.targets[0].elts) == len(elems):
+                            plan.append((u, ast.Tuple(elts=[copy.deepcopy(e) for e in elems], ctx=ast.Load())))
+                        else:
+                            ok = False
+                            break
+                    if not ok:
+                        continue
+                    # the element names must keep their values from the definition to every use
+                    try:
+                        cfg = CFG(fdef)
+                    except Exception:
+                        continue
+                    dn = [n for n in cfg.nodes if n.ast is st]
+                    if len(dn) != 1:
+                        continue
+                    fwd = cfg.reach([t for (t, lab) in cfg.succ[dn[0]]])
+                    enames = {e.id for e in elems if isinstance(e, ast.Name)}
+                    eattrs = {a.attr for e in elems for a in ast.walk(e) if isinstance(a, ast.Attribute)}
+                    clash = False
+                    for n in fwd:
+                        if n.ast is None:
+                            continue
+                        for x in self._own(n):
+                            if isinstance(x, ast.Name) and isinstance(x.ctx, (ast.Store, ast.Del)) and x.id in enames:
+                                clash = True
+                            if isinstance(x, ast.Attribute) and isinstance(x.ctx, (ast.Store, ast.Del)) and x.attr in eattrs:
+                                clash = True
+                            if eattrs and isinstance(x, ast.Call):
+                                clash = True
+                        if n.kind == 'for' and any(isinstance(x, ast.Name) and x.id in enames for x in ast.walk(n.stmt.target)):
+                            clash = True
+                    if clash or dn[0] in fwd:
+                        continue
+                    targets = {id(a): b for a, b in plan}
+
+                    class Rep(ast.NodeTransformer):
+                        def visit(self, node):
+                            if id(node) in targets:
+                                return ast.copy_location(copy.deepcopy(targets[id(node)]), node)
+                            if isinstance(node, (ast.FunctionDef, ast.Lambda)) and node is not fdef:
+                                return node
+                            return super().visit(node)
+                    fdef.body = [Rep().visit(b) for b in fdef.body]
+                    self._remove_stmt(fdef, st)
+                    self.stats['aggregates'] = self.stats.get('aggregates', 0) + 1
+
     def _pure_expr(self, e):
         """an expression without calls, subscripts or other effects: constants, names, attribute chains and operators."""
         if isinstance(e, (ast.Constant, ast.Name)):
@@ -1476,6 +1612,7 @@ class Expander:
                                 changed |= self.expand_function(mname, st.name, s2)
             if not changed:
                 break
+        self.replace_local_aggregates()
         for _ in range(4):
             before = self.stats.get('aliases', 0)
             self.propagate_attr_aliases()
